@@ -9,24 +9,27 @@ REL_DONE = "forall_n(lambda n: forall_t(lambda b: related(included_map, n, b) ==
 
 FLAGGED_MARKED = "forall_t(lambda a: imp(all_of(flag(a), is_template(a)), marked(a)))"
 STACK_MARKED = "forall_t(lambda a: imp(member(expand_stack, a), all_of(marked(a), is_template(a))))"
-MARKED_TEMPL = "forall_t(lambda a: imp(marked(a), is_template(a)))"
+MARKED_TEMPL = "forall_t(lambda a: imp(marked(a), any_of(is_template(a), was_marked(a))))"
+OLD_KEPT = "forall_t(lambda a: imp(was_marked(a), marked(a)))"
 MARKED_IN_S = "forall_t(lambda a: imp(marked(a), in_S(a)))"
 # every marked page that is no longer on the worklist has all its includers marked
-CLOSED_OFF_STACK = ("forall_t(lambda a: forall_t(lambda b: imp(all_of(marked(a), neg(member(expand_stack, a)), "
+CLOSED_OFF_STACK = ("forall_t(lambda a: forall_t(lambda b: imp(all_of(marked(a), is_template(a), neg(member(expand_stack, a)), "
                     "is_template(b), uses(key(a), b)), marked(b))))")
 # same, except for the page being processed, whose includers are marked as far as they were visited
-CLOSED_EXCEPT_CUR = ("forall_t(lambda a: forall_t(lambda b: imp(all_of(marked(a), neg(member(expand_stack, a)), "
+CLOSED_EXCEPT_CUR = ("forall_t(lambda a: forall_t(lambda b: imp(all_of(marked(a), is_template(a), neg(member(expand_stack, a)), "
                      "neg(same(a, page)), is_template(b), uses(key(a), b)), marked(b))))")
 CUR_VISITED = ("forall_t(lambda b: imp(all_of(processed(b), is_template(b), uses(key(page), b)), marked(b)))")
 CUR_MARKED = "all_of(marked(page), is_template(page), in_S(page), neg(member(expand_stack, page)))"
 
 # S: an arbitrary set containing the flagged templates and closed under "includes a member" (minimality)
 S_AXIOMS = ["forall_t(lambda a: imp(all_of(flag(a), is_template(a)), in_S(a)))",
-            "forall_t(lambda a: forall_t(lambda b: imp(all_of(in_S(a), is_template(b), uses(key(a), b)), in_S(b))))"]
+            "forall_t(lambda a: imp(was_marked(a), in_S(a)))",
+            "forall_t(lambda a: forall_t(lambda b: imp(all_of(in_S(a), is_template(a), is_template(b), uses(key(a), b)), in_S(b))))"]
 
 LEAST_FIXPOINT = [
     FLAGGED_MARKED,                                                          # contains every flagged template
-    "forall_t(lambda a: forall_t(lambda b: imp(all_of(marked(a), is_template(b), uses(key(a), b)), marked(b))))",
+    OLD_KEPT,                                                                # earlier marks are kept
+    "forall_t(lambda a: forall_t(lambda b: imp(all_of(marked(a), is_template(a), is_template(b), uses(key(a), b)), marked(b))))",
     MARKED_IN_S,                                                             # contained in every closed superset
     MARKED_TEMPL,
 ]
@@ -36,18 +39,17 @@ def contracts():
     c = Contract(
         target="core:Wtp.analyze_templates", prop="C17", mode="value",
         params={"check_template_func": "cb:abs:classifier"},
-        requires=["memo_coherent()", "'Template' in ctx.NAMESPACE_DATA",
-                  "forall_t(lambda a: neg(marked(a)))"] + S_AXIOMS,
+        requires=["memo_coherent()", "'Template' in ctx.NAMESPACE_DATA"] + S_AXIOMS,
         abstract_locals={"expand_stack": "pageset", "included_map": "namerel"},
         abstract_calls={"get_all_pages": "all_template_pages", "set_template_pre_expand": "mark",
                         "get_page": "lookup"},
         loops={
             "for page in self.get_all_pages([template_ns_id])": {
                 "foreach": True, "havoc_ghost": ["M", "memo_valid"],
-                "invariant": ["memo_coherent()", REL_BUILT, MARKED_TEMPL, MARKED_IN_S,
+                "invariant": ["memo_coherent()", REL_BUILT, MARKED_TEMPL, MARKED_IN_S, OLD_KEPT,
                               "forall_t(lambda a: imp(all_of(processed(a), flag(a), is_template(a)), marked(a)))",
-                              "forall_t(lambda a: imp(marked(a), all_of(processed(a), flag(a))))",
-                              "forall_t(lambda a: member(expand_stack, a) == marked(a))"]},
+                              "forall_t(lambda a: imp(marked(a), any_of(was_marked(a), all_of(processed(a), flag(a), is_template(a)))))",
+                              "forall_t(lambda a: member(expand_stack, a) == all_of(processed(a), is_template(a), marked(a)))"]},
             "for used_template in used_templates": {
                 "foreach": True,
                 "invariant": [
@@ -56,11 +58,11 @@ def contracts():
                     "all_of(same(b, page), processed_n(n), uses(n, b)))))"]},
             "while len(expand_stack) > 0": {
                 "havoc_ghost": ["M", "memo_valid"],
-                "invariant": ["memo_coherent()", REL_DONE, FLAGGED_MARKED, STACK_MARKED, MARKED_TEMPL, MARKED_IN_S,
+                "invariant": ["memo_coherent()", REL_DONE, FLAGGED_MARKED, STACK_MARKED, MARKED_TEMPL, MARKED_IN_S, OLD_KEPT,
                               CLOSED_OFF_STACK]},
             "for template_title in included_map[title_no_ns_prefix]": {
                 "foreach": True, "havoc_ghost": ["M", "memo_valid"],
-                "invariant": ["memo_coherent()", REL_DONE, FLAGGED_MARKED, STACK_MARKED, MARKED_TEMPL, MARKED_IN_S,
+                "invariant": ["memo_coherent()", REL_DONE, FLAGGED_MARKED, STACK_MARKED, MARKED_TEMPL, MARKED_IN_S, OLD_KEPT,
                               CLOSED_EXCEPT_CUR, CUR_VISITED, CUR_MARKED]},
         },
         asserts={"query_str = '": LEAST_FIXPOINT},
